@@ -80,11 +80,20 @@ class LocalScipyMinimizer(AbstractMinimizer):
     ) -> Result[OptimisationState]:
         """Call minimzer."""
         par_names = list(p0.keys())
+        # a parameter without explicit bounds is kept positive and finite, unless it starts
+        # outside that box: then it is left free instead of being moved onto the box
+        default = (1e-6, 1e6)
 
         res: OptimizeResult = minimize(
             lambda par_values: residual_fn(_pack_updates(par_values, par_names)),
             x0=list(p0.values()),
-            bounds=[bounds.get(name, (1e-6, 1e6)) for name in p0],
+            bounds=[
+                bounds.get(
+                    name,
+                    default if default[0] <= value <= default[1] else (None, None),
+                )
+                for name, value in p0.items()
+            ],
             method=self.method,
             tol=self.tol,
         )
